@@ -65,6 +65,7 @@ def run(ctx):
             "extraction: ExtrOcamlBasic only; OCaml driver ocaml/C07/{a07lib,main}.ml + ocaml/common/conv.ml",
             "correspondence harness harness/cmd/hC07 + harness/internal/a07ammo (real components/providers/http NewProvider over an afero mem file, Provider.Run + Acquire)",
             "oracles (Section variables of the theorems; answers of the real library obtained from `hC07 oracle` for the executable model): net/url.Parse + http.NewRequest (URL string, Host), net/http.ReadRequest (raw), encoding/json (jsonline)",
+            "round 6: the value the header/date middleware writes is the wall clock: checked by the harness (http.TimeFormat, the middleware's location, an instant inside the Acquire call) and replaced by a marker; the refusing / failing-init middlewares are test doubles of the harness; decoder-level Release cases drive decoders.NewDecoder directly under GOMAXPROCS(1)",
             "modelled, not verified: bufio.Scanner/bufio.Reader buffering (modelled as exact line / chunk splitting with the 64 KiB token limit), Go map iteration order of http.Header (observations are sorted)",
         ],
         assumptions=["net/url, net/http and encoding/json behave as their oracle answers say",
